@@ -524,5 +524,6 @@ func runC20(e *Engine, r *Report) {
 	ruleShardRouting(e, r)
 	ruleBootstrapGate(e, r)
 	ruleCreatedFileSync(e, r, 1, "tools")
-	borrow(e, r, "C16", "ERR-refusal")
+	borrow(e, r, "C16", "ERR-refusal", "MPT-publish-before-record")
+	borrow(e, r, "C08", "WMW-ondisk-cursors")
 }
